@@ -246,3 +246,63 @@ static inline int post_verif_reduction_nd_reshape_v(sv_t inp_shape, int axis, a2
       && C12_C(ret) == SUF[d]       && C12_C(ret) == c12_prod(inp_shape, (unsigned long)axis + 1UL, d);
 }
 
+
+/* ======== outer product, 1-d lhs (A) x 1-d rhs (B) -> out (A, B) ========
+ * simd grid (A, ceil(B/N)); item (r, sc): out PACKED/PAD_k at r*B + sc*N, lhs BROADCAST at r, rhs with the same tag at sc*N */
+static inline int c12_outer_ok(a2_t out_shape, a1_t lhs_shape, a1_t rhs_shape)
+{ return ARR_AT(lhs_shape, 0) == C12_R(out_shape) && ARR_AT(rhs_shape, 0) == C12_C(out_shape); }
+static inline int c12_outer_shape_post(a2_t out_shape, a2_t ret, unsigned long N)
+{ return C12_R(ret) == C12_R(out_shape) && C12_C(ret) == C12_HCOLS(C12_C(out_shape), N); }
+static inline int c12_outer_pre(a2_t out_shape, a1_t lhs_shape, a1_t rhs_shape, unsigned long i, unsigned long N)
+{
+  unsigned long A = C12_R(out_shape), B = C12_C(out_shape);
+  return c12_outer_ok(out_shape, lhs_shape, rhs_shape) && A >= 1UL && B >= 1UL && B <= C12_MAX_EXTENT
+      && GHOST_DEF(SR, DIV_ul(i, C12_HCOLS(B, N))) && GHOST_DEF(SC, MOD_ul(i, C12_HCOLS(B, N))) && GHOST_DEF(RB, MUL_ul(SR, B))
+      && SR < A;
+}
+static inline int c12_outer_post(a2_t out_shape, a1_t lhs_shape, a1_t rhs_shape, unsigned long i, tix3_t ret, unsigned long N)
+{
+  unsigned long B = C12_C(out_shape), scols = C12_HCOLS(B, N);
+  unsigned long col = SC * N;
+  int last = (SC + 1UL == scols);
+  int tag = C12_TAG(ARR_AT(ret, 0));
+  int tag_ok = tag == C12_PACKED || (tag >= 1 && tag <= (int)N - 1 && tag <= 8);
+  unsigned long valid = (tag == C12_PACKED) ? N : N - (unsigned long)tag;
+  int out_ok = tag_ok && C12_OFF(ARR_AT(ret, 0)) == RB + col && col < B && col + valid <= B && (last ? col + valid == B : tag == C12_PACKED);
+  int lhs_ok = C12_TAG(ARR_AT(ret, 1)) == C12_BROADCAST && C12_OFF(ARR_AT(ret, 1)) == SR;          /* lhs[r], r < A */
+  int rhs_ok = C12_TAG(ARR_AT(ret, 2)) == tag && C12_OFF(ARR_AT(ret, 2)) == col;                   /* rhs[col .. col+valid) inside B */
+  return out_ok && lhs_ok && rhs_ok;
+}
+static inline int pre_verif_outer_shape_4(a2_t out_shape, a1_t lhs_shape, a1_t rhs_shape) { return c12_outer_ok(out_shape, lhs_shape, rhs_shape); }
+static inline int post_verif_outer_shape_4(a2_t out_shape, a1_t lhs_shape, a1_t rhs_shape, a2_t ret) { return c12_outer_shape_post(out_shape, ret, 4UL); }
+static inline int pre_verif_outer_at_4(a2_t out_shape, a1_t lhs_shape, a1_t rhs_shape, unsigned long i) { return c12_outer_pre(out_shape, lhs_shape, rhs_shape, i, 4UL); }
+static inline int post_verif_outer_at_4(a2_t out_shape, a1_t lhs_shape, a1_t rhs_shape, unsigned long i, tix3_t ret) { return c12_outer_post(out_shape, lhs_shape, rhs_shape, i, ret, 4UL); }
+static inline int pre_verif_outer_shape_8(a2_t out_shape, a1_t lhs_shape, a1_t rhs_shape) { return c12_outer_ok(out_shape, lhs_shape, rhs_shape); }
+static inline int post_verif_outer_shape_8(a2_t out_shape, a1_t lhs_shape, a1_t rhs_shape, a2_t ret) { return c12_outer_shape_post(out_shape, ret, 8UL); }
+static inline int pre_verif_outer_at_8(a2_t out_shape, a1_t lhs_shape, a1_t rhs_shape, unsigned long i) { return c12_outer_pre(out_shape, lhs_shape, rhs_shape, i, 8UL); }
+static inline int post_verif_outer_at_8(a2_t out_shape, a1_t lhs_shape, a1_t rhs_shape, unsigned long i, tix3_t ret) { return c12_outer_post(out_shape, lhs_shape, rhs_shape, i, ret, 8UL); }
+
+/* ======== matmul inner steps (thorough tier): out element o = (o / out_cols, o % out_cols); step s reads lhs row and rhs^T row ======== */
+GHOST(unsigned long, LB)
+GHOST(unsigned long, RBM)
+static inline int pre_verif_matmul_inner_size_4(a2_t out_shape, a2_t lhs_shape, a2_t rhs_shape, unsigned long out_offset) { return 1; }
+static inline int post_verif_matmul_inner_size_4(a2_t out_shape, a2_t lhs_shape, a2_t rhs_shape, unsigned long out_offset, unsigned long ret)
+{ return ret == C12_HCOLS(C12_C(lhs_shape), 4UL); }
+static inline int pre_verif_matmul_inner_at_4(a2_t out_shape, a2_t lhs_shape, a2_t rhs_shape, unsigned long out_offset, unsigned long step)
+{
+  unsigned long K = C12_C(lhs_shape), oc = C12_C(out_shape);
+  return K >= 1UL && K <= C12_MAX_EXTENT && oc >= 1UL && step < C12_HCOLS(K, 4UL)
+      && GHOST_DEF(LB, MUL_ul(DIV_ul(out_offset, oc), K)) && GHOST_DEF(RBM, MUL_ul(MOD_ul(out_offset, oc), K));
+}
+static inline int post_verif_matmul_inner_at_4(a2_t out_shape, a2_t lhs_shape, a2_t rhs_shape, unsigned long out_offset, unsigned long step, tix3_t ret)
+{
+  unsigned long K = C12_C(lhs_shape), N = 4UL, col = step * 4UL;
+  int last = (step + 1UL == C12_HCOLS(K, N));
+  int tag = C12_TAG(ARR_AT(ret, 1));
+  int tag_ok = tag == C12_PACKED || (tag >= 1 && tag <= (int)N - 1);
+  unsigned long valid = (tag == C12_PACKED) ? N : N - (unsigned long)tag;
+  return C12_TAG(ARR_AT(ret, 0)) == C12_SCALAR && C12_OFF(ARR_AT(ret, 0)) == out_offset
+      && tag_ok && col < K && col + valid <= K && (last ? col + valid == K : tag == C12_PACKED)
+      && C12_OFF(ARR_AT(ret, 1)) == LB + col
+      && C12_TAG(ARR_AT(ret, 2)) == tag && C12_OFF(ARR_AT(ret, 2)) == RBM + col;
+}
